@@ -363,6 +363,11 @@ class TimeMonitor(object):
             # the rounded a(1-t)+bt carries about one unit in the last place of the range ends per unit of |t|: visible only when
             # the range is a few ulps wide and the instant lies millions of domain spans outside (C15 thorough tier)
             tol += 8 * Fraction(math.ulp(max(abs(r[0]), abs(r[1])))) * (1 + abs(t))
+            if x.microsecond % 1000:
+                # an instant finer than a millisecond is not a whole number of epoch milliseconds: its float carries up to
+                # half an ulp of ~1e12 ms (0.1-0.5 us), which a short domain magnifies by range span / domain span
+                ems = max(abs((q - EPOCH) / timedelta(milliseconds=1)) for q in (x, d[0], d[1]))
+                tol += 4 * Fraction(math.ulp(ems)) * abs(Fraction(r[1]) - Fraction(r[0])) / abs(Fraction((d[1] - d[0]) // us, 1000))
             if abs(Fraction(y) - exp) > tol:
                 self._viol("not-affine", {"op": name, "x": x.isoformat(), "y": y, "expected": float(exp),
                                           "reported_domain": [d[0].isoformat(), d[1].isoformat()], "reported_range": list(r)})
